@@ -157,6 +157,8 @@ REQUIRES(W_OK(r, 32) && R_OK(a, 32) && R_OK(b, 32) && VAL4(a) < BV_N && VAL4(b) 
 ASSIGNS(OBJ_UPTO(r, 32))
 ENSURES(VAL4(r) < BV_N)
 ENSURES(VAL4(r) == OLDVAL4(a) + OLDVAL4(b) || VAL4(r) + BV_N == OLDVAL4(a) + OLDVAL4(b))
+/* the same fact in if-then-else form (cheaper for callers' proofs) */
+ENSURES(VAL4(r) == ((OLDVAL4(a) + OLDVAL4(b)) >= BV_N ? (OLDVAL4(a) + OLDVAL4(b)) - BV_N : (OLDVAL4(a) + OLDVAL4(b))))
 ;
 
 void sm2_z256_modn_sub(sm2_z256_t r, const sm2_z256_t a, const sm2_z256_t b)
